@@ -1,18 +1,520 @@
 /-
 C14 — linearised characterisation methods recover the generating parameters.
-(theorems are being added; see Props/C14 task)
+
+Statements are about
+  * the GENERATED per-point transforms and parameter formulas `PgVerif.Gen.CharR.*` (characterisation/*.py now), and
+  * the hand-written, harness-tested model `PgVerif.Model.Linear` of window selection and least squares.
+
+A. least squares (`ols`): exact data on a line are fitted exactly (guard: two distinct abscissae).
+B. recovery: BET, Langmuir, t-plot, alpha-s, Dubinin–Astakhov: transform of exact model data is linear and the
+   parameter formulas invert slope/intercept; end-to-end through `ols`.
+C. window selection: `searchsorted`, `limitWindow`, `decide3`, `slice`, `rouquerolMax`, `betWindow`, `openSection`.
+D. non-vacuity examples and concrete evaluations (tests, not properties).
 -/
 import PgVerif.Gen.CharR
 import PgVerif.Model.Linear
+import Mathlib.Tactic
 
 namespace PgVerif.Props.C14
-open PgVerif.Gen.CharR
+open PgVerif.Gen.CharR PgVerif.Model.Linear
 
-/-- Langmuir linearisation: `p/n` is a straight line in `p` with slope `1/n_m` and intercept `1/(n_m K)`. -/
-theorem langmuir_transform_linear (nm K p : ℝ) (hnm : nm ≠ 0) (hK : K ≠ 0) (hp : p ≠ 0) (h1 : 1 + K * p ≠ 0) :
-    langmuir_transform p (simple_lang p nm K) = (1 / nm) * p + 1 / (nm * K) := by
-  unfold langmuir_transform simple_lang
+/-! ## A. least squares -/
+section OlsAlgebra
+variable {α : Type} [Field α]
+
+@[simp] lemma sum_nil : sum ([] : List α) = 0 := rfl
+@[simp] lemma sum_cons (x : α) (xs : List α) : sum (x :: xs) = x + sum xs := rfl
+
+lemma sum_map_affine (a b : α) (xs : List α) :
+    sum (xs.map fun x => a * x + b) = a * sum xs + b * (xs.length : α) := by
+  induction xs with
+  | nil => simp
+  | cons x xs ih => simp only [List.map_cons, sum_cons, ih, List.length_cons]; push_cast; ring
+
+lemma sum_map_mul_left (a : α) (g : α → α) (xs : List α) :
+    sum (xs.map fun x => a * g x) = a * sum (xs.map g) := by
+  induction xs with
+  | nil => simp
+  | cons x xs ih => simp only [List.map_cons, sum_cons, ih]; ring
+
+lemma sum_zipWith_map (g : α → α → α) (f : α → α) (xs : List α) :
+    sum (List.zipWith g xs (xs.map f)) = sum (xs.map fun x => g x (f x)) := by
+  induction xs with
+  | nil => simp
+  | cons x xs ih => simp only [List.map_cons, List.zipWith_cons_cons, sum_cons, ih]
+
+lemma sum_zipWith_self (g : α → α → α) (xs : List α) :
+    sum (List.zipWith g xs xs) = sum (xs.map fun x => g x x) := by
+  have := sum_zipWith_map g id xs
+  simp only [List.map_id, id] at this
+  exact this
+
+/-- `sxy xs xs` is the sum of squared deviations from the mean. -/
+lemma sxy_self_eq (xs : List α) :
+    sxy xs xs = sum (xs.map fun x => (x - mean xs) * (x - mean xs)) := by
+  unfold sxy; exact sum_zipWith_self _ xs
+
+lemma sum_zipWith_scale (k m m' : α) (xs ys : List α) :
+    sum (List.zipWith (fun x y => (x - m) * (y - k * m')) xs (ys.map fun y => k * y))
+      = k * sum (List.zipWith (fun x y => (x - m) * (y - m')) xs ys) := by
+  induction xs generalizing ys with
+  | nil => simp
+  | cons x xs ih =>
+    cases ys with
+    | nil => simp
+    | cons y ys => simp only [List.map_cons, List.zipWith_cons_cons, sum_cons, ih]; ring
+
+lemma sxy_nil_left (ys : List α) : sxy ([] : List α) ys = 0 := by
+  unfold sxy; simp
+
+lemma mean_map_scale (k : α) (ys : List α) : mean (ys.map fun y => k * y) = k * mean ys := by
+  unfold mean
+  have := sum_map_mul_left k id ys
+  simp only [id, List.map_id] at this
+  rw [this, List.length_map, mul_div_assoc]
+
+variable [CharZero α]
+
+lemma length_cast_ne_zero {xs : List α} (h : xs ≠ []) : (xs.length : α) ≠ 0 := by
+  have : xs.length ≠ 0 := by simpa using h
+  exact_mod_cast this
+
+lemma mean_map_affine (a b : α) (xs : List α) (h : xs ≠ []) :
+    mean (xs.map fun x => a * x + b) = a * mean xs + b := by
+  have hl := length_cast_ne_zero h
+  unfold mean
+  rw [sum_map_affine, List.length_map]
+  field_simp
+
+/-- the covariance of `xs` with an affine image of itself -/
+lemma sxy_map_affine (a b : α) (xs : List α) (h : xs ≠ []) :
+    sxy xs (xs.map fun x => a * x + b) = a * sxy xs xs := by
+  rw [sxy_self_eq]
+  unfold sxy
+  rw [mean_map_affine a b xs h, sum_zipWith_map, ← sum_map_mul_left]
+  congr 1
+  apply List.map_congr_left
+  intro x _
+  ring
+
+/-- **A1.** Least squares through points lying exactly on the line `y = a x + b` returns `(a, b)`,
+provided the abscissae are not all equal (`sxy xs xs ≠ 0`; see `sxy_self_pos`, `sxy_self_pos_of_ne`). -/
+theorem ols_exact (a b : α) (xs ys : List α) (hys : ys = xs.map fun x => a * x + b)
+    (hx : sxy xs xs ≠ 0) : ols xs ys = (a, b) := by
+  have hne : xs ≠ [] := by
+    rintro rfl; exact hx (sxy_nil_left _)
+  subst hys
+  unfold ols
+  simp only [sxy_map_affine a b xs hne, mean_map_affine a b xs hne]
+  rw [mul_div_assoc, div_self hx, mul_one]
+  simp
+
+/-- **A3.** Scaling the ordinates by `k` scales slope and intercept by `k` (no side condition). -/
+theorem ols_scale (k : α) (xs ys : List α) :
+    ols xs (ys.map fun y => k * y) = (k * (ols xs ys).1, k * (ols xs ys).2) := by
+  have hs : sxy xs (ys.map fun y => k * y) = k * sxy xs ys := by
+    unfold sxy
+    rw [mean_map_scale, sum_zipWith_scale]
+  unfold ols
+  simp only [hs, mean_map_scale, Prod.mk.injEq]
+  constructor <;> ring
+
+end OlsAlgebra
+
+section OlsOrder
+variable {α : Type} [Field α] [LinearOrder α] [IsStrictOrderedRing α]
+
+lemma sum_map_nonneg (g : α → α) (xs : List α) (h : ∀ x ∈ xs, 0 ≤ g x) : 0 ≤ sum (xs.map g) := by
+  induction xs with
+  | nil => simp
+  | cons x xs ih =>
+    simp only [List.map_cons, sum_cons]
+    have h1 := h x (by simp)
+    have h2 := ih (fun y hy => h y (by simp [hy]))
+    linarith
+
+lemma le_sum_map_of_mem (g : α → α) (xs : List α) (h : ∀ x ∈ xs, 0 ≤ g x) {u : α} (hu : u ∈ xs) :
+    g u ≤ sum (xs.map g) := by
+  induction xs with
+  | nil => simp at hu
+  | cons x xs ih =>
+    simp only [List.map_cons, sum_cons]
+    have h1 := h x (by simp)
+    have h2 := sum_map_nonneg g xs (fun y hy => h y (by simp [hy]))
+    rcases List.mem_cons.mp hu with rfl | hu'
+    · linarith
+    · have := ih (fun y hy => h y (by simp [hy])) hu'
+      linarith
+
+lemma sxy_self_nonneg (xs : List α) : 0 ≤ sxy xs xs := by
+  rw [sxy_self_eq]; exact sum_map_nonneg _ _ (fun x _ => mul_self_nonneg _)
+
+/-- two distinct abscissae make the sum of squared deviations positive -/
+theorem sxy_self_pos_of_ne (xs : List α) {u v : α} (hu : u ∈ xs) (hv : v ∈ xs) (huv : u ≠ v) :
+    0 < sxy xs xs := by
+  rw [sxy_self_eq]
+  have key : ∀ w ∈ xs, w ≠ mean xs → 0 < sum (xs.map fun x => (x - mean xs) * (x - mean xs)) := by
+    intro w hw hwm
+    have h1 := le_sum_map_of_mem (fun x => (x - mean xs) * (x - mean xs)) xs
+      (fun x _ => mul_self_nonneg _) hw
+    have h2 : 0 < (w - mean xs) * (w - mean xs) := mul_self_pos.mpr (sub_ne_zero.mpr hwm)
+    exact lt_of_lt_of_le h2 h1
+  by_cases hum : u = mean xs
+  · exact key v hv (fun hvm => huv (hum.trans hvm.symm))
+  · exact key u hu hum
+
+omit [Field α] [LinearOrder α] [IsStrictOrderedRing α] in
+/-- a pairwise-distinct list with at least two entries has two distinct members -/
+lemma exists_two_of_pairwise {R : α → α → Prop} (hR : ∀ a b, R a b → a ≠ b) (xs : List α)
+    (hp : xs.Pairwise R) (hl : 2 ≤ xs.length) : ∃ u ∈ xs, ∃ v ∈ xs, u ≠ v := by
+  match xs, hp, hl with
+  | a :: b :: rest, hp, _ =>
+    refine ⟨a, by simp, b, by simp, ?_⟩
+    rw [List.pairwise_cons] at hp
+    exact hR a b (hp.1 b (by simp))
+
+/-- strictly increasing abscissae (at least two) ⇒ positive sum of squared deviations -/
+theorem sxy_self_pos (xs : List α) (hs : xs.Pairwise (· < ·)) (hl : 2 ≤ xs.length) : 0 < sxy xs xs := by
+  obtain ⟨u, hu, v, hv, huv⟩ := exists_two_of_pairwise (fun a b h => ne_of_lt h) xs hs hl
+  exact sxy_self_pos_of_ne xs hu hv huv
+
+theorem sxy_self_pos_of_desc (xs : List α) (hs : xs.Pairwise (· > ·)) (hl : 2 ≤ xs.length) : 0 < sxy xs xs := by
+  obtain ⟨u, hu, v, hv, huv⟩ := exists_two_of_pairwise (fun a b h => ne_of_gt h) xs hs hl
+  exact sxy_self_pos_of_ne xs hu hv huv
+
+/-- **A2.** `ols_exact` for strictly increasing abscissae (at least two points). -/
+theorem ols_exact_of_sorted (a b : α) (xs ys : List α) (hys : ys = xs.map fun x => a * x + b)
+    (hs : xs.Pairwise (· < ·)) (hl : 2 ≤ xs.length) : ols xs ys = (a, b) :=
+  ols_exact a b xs ys hys (sxy_self_pos xs hs hl).ne'
+
+/-- `ols_exact` for strictly decreasing abscissae (at least two points). -/
+theorem ols_exact_of_sorted_desc (a b : α) (xs ys : List α) (hys : ys = xs.map fun x => a * x + b)
+    (hs : xs.Pairwise (· > ·)) (hl : 2 ≤ xs.length) : ols xs ys = (a, b) :=
+  ols_exact a b xs ys hys (sxy_self_pos_of_desc xs hs hl).ne'
+
+/-- `ols_exact` when two of the abscissae differ. -/
+theorem ols_exact_of_two_distinct (a b : α) (xs ys : List α) (hys : ys = xs.map fun x => a * x + b)
+    {u v : α} (hu : u ∈ xs) (hv : v ∈ xs) (huv : u ≠ v) : ols xs ys = (a, b) :=
+  ols_exact a b xs ys hys (sxy_self_pos_of_ne xs hu hv huv).ne'
+
+/-- Conversely the guard is necessary: when all abscissae are equal `sxy xs xs = 0` and the
+regression is degenerate (the totalised division returns slope 0). -/
+theorem sxy_self_eq_zero_of_const (c : α) (n : ℕ) : sxy (List.replicate n c) (List.replicate n c) = 0 := by
+  have hsum : ∀ (d : α) (k : ℕ), sum (List.replicate k d) = k * d := by
+    intro d k
+    induction k with
+    | zero => simp
+    | succ k ih => simp only [List.replicate_succ, sum_cons, ih]; push_cast; ring
+  rcases Nat.eq_zero_or_pos n with rfl | hn
+  · exact sxy_nil_left _
+  · have hn' : (n : α) ≠ 0 := by exact_mod_cast hn.ne'
+    have hm : mean (List.replicate n c) = c := by
+      unfold mean; rw [hsum, List.length_replicate]; field_simp
+    rw [sxy_self_eq, hm, List.map_replicate, hsum]
+    ring
+
+end OlsOrder
+
+/-! ## B. recovery of the generating parameters (statements about the generated formulas `Gen.CharR`) -/
+section Recovery
+
+/-- map of a strictly increasing list under a function that is strictly increasing on its members -/
+lemma pairwise_lt_map_of_mem {f : ℝ → ℝ} {l : List ℝ} (hs : l.Pairwise (· < ·))
+    (hf : ∀ a ∈ l, ∀ b ∈ l, a < b → f a < f b) : (l.map f).Pairwise (· < ·) := by
+  rw [List.pairwise_map]
+  exact hs.imp_of_mem (fun ha hb hab => hf _ ha _ hb hab)
+
+lemma pairwise_gt_map_of_mem {f : ℝ → ℝ} {l : List ℝ} (hs : l.Pairwise (· < ·))
+    (hf : ∀ a ∈ l, ∀ b ∈ l, a < b → f b < f a) : (l.map f).Pairwise (· > ·) := by
+  rw [List.pairwise_map]
+  exact hs.imp_of_mem (fun ha hb hab => hf _ ha _ hb hab)
+
+/-! ### BET -/
+
+/-- **B4.** BET linearisation: for data generated by the BET equation, `p / (n (1 - p))` is the straight line
+`(c-1)/(n_m c) · p + 1/(n_m c)`.  Guards: `0 < p < 1` (relative pressure strictly inside the range; at `p = 0` and
+`p = 1` the transform divides by zero), `0 < n_m`, `0 < c`. -/
+theorem bet_transform_linear (nm c p : ℝ) (hp0 : 0 < p) (hp1 : p < 1) (hnm : 0 < nm) (hc : 0 < c) :
+    bet_transform p (simple_bet p nm c) = ((c - 1) / (nm * c)) * p + 1 / (nm * c) := by
+  unfold bet_transform roq_transform simple_bet
+  have h1 : (1 - p) ≠ 0 := (sub_pos.2 hp1).ne'
+  have h2 : (1 - p) + c * p ≠ 0 := (add_pos (sub_pos.2 hp1) (mul_pos hc hp0)).ne'
+  have h3 : p ≠ 0 := hp0.ne'
+  have h4 : nm ≠ 0 := hnm.ne'
+  have h5 : c ≠ 0 := hc.ne'
   field_simp
   ring
+
+/-- `1e-18 · N_A` -/
+lemma avogadro_scaled : ((10 : ℝ) ^ (-18 : ℤ)) * (602214076000000000000000 : ℝ) = 602214.076 := by
+  norm_num
+
+/-- **B5.** The BET parameter formulas invert slope and intercept of the BET line.
+(`bet_area` has the generated argument order `cross_section n_monolayer`.) -/
+theorem bet_parameters_recover (nm c cs : ℝ) (hnm : 0 < nm) (hc : 0 < c) :
+    bet_c_const ((c - 1) / (nm * c)) (1 / (nm * c)) = c ∧
+    bet_n_monolayer (1 / (nm * c)) c = nm ∧
+    bet_p_monolayer c = 1 / (Real.sqrt c + 1) ∧
+    bet_area cs nm = nm * cs * (10 : ℝ) ^ (-18 : ℤ) * 602214076000000000000000 ∧
+    bet_area cs nm = nm * cs * 602214.076 := by
+  have h4 : nm ≠ 0 := hnm.ne'
+  have h5 : c ≠ 0 := hc.ne'
+  refine ⟨?_, ?_, rfl, rfl, ?_⟩
+  · unfold bet_c_const; field_simp; ring
+  · unfold bet_n_monolayer; field_simp
+  · unfold bet_area; rw [mul_assoc, avogadro_scaled]
+
+/-- **B6.** BET end to end: least squares over the BET transform of exact BET data at any strictly increasing list of at
+least two relative pressures in `(0,1)` returns the BET line, and the code's own chaining (`n_monolayer` computed from
+the computed `c_const`) returns the generating `c` and `n_m`. -/
+theorem bet_recovers (nm c : ℝ) (ps : List ℝ) (hnm : 0 < nm) (hc : 0 < c)
+    (hs : ps.Pairwise (· < ·)) (hl : 2 ≤ ps.length) (hp : ∀ p ∈ ps, 0 < p ∧ p < 1) :
+    let r := ols ps (ps.map fun p => bet_transform p (simple_bet p nm c))
+    r = ((c - 1) / (nm * c), 1 / (nm * c)) ∧
+    bet_c_const r.1 r.2 = c ∧ bet_n_monolayer r.2 (bet_c_const r.1 r.2) = nm := by
+  intro r
+  have hr : r = ((c - 1) / (nm * c), 1 / (nm * c)) := by
+    apply ols_exact_of_sorted _ _ _ _ _ hs hl
+    apply List.map_congr_left
+    intro p hpm
+    exact bet_transform_linear nm c p (hp p hpm).1 (hp p hpm).2 hnm hc
+  obtain ⟨h1, h2, -⟩ := bet_parameters_recover nm c 0 hnm hc
+  refine ⟨hr, ?_, ?_⟩
+  · rw [hr]; exact h1
+  · rw [hr]; simp only; rw [h1]; exact h2
+
+/-- **B7.** The "monolayer pressure" `1/(√c+1)` is the pressure at which the BET loading equals `n_m`. -/
+theorem bet_p_monolayer_is_knee (nm c : ℝ) (hc : 0 < c) : simple_bet (bet_p_monolayer c) nm c = nm := by
+  unfold simple_bet bet_p_monolayer
+  have hs : 0 < Real.sqrt c := Real.sqrt_pos.2 hc
+  have hcs : c = Real.sqrt c * Real.sqrt c := (Real.mul_self_sqrt hc.le).symm
+  set s := Real.sqrt c with hsdef
+  have h1 : s + 1 ≠ 0 := by positivity
+  have e1 : 1 - 1 / (s + 1) = s / (s + 1) := by field_simp; ring
+  have e2 : s / (s + 1) + c * (1 / (s + 1)) = s := by rw [hcs]; field_simp; ring
+  rw [e1, e2, hcs]
+  field_simp
+
+/-! ### Langmuir -/
+
+/-- **B8a.** Langmuir linearisation: `p/n` is a straight line in `p` with slope `1/n_m` and intercept `1/(n_m K)`.
+Guards `0 < p`, `0 < n_m`, `0 < K` (at `p = 0` the loading is 0 and the transform divides by zero). -/
+theorem langmuir_transform_linear (nm K p : ℝ) (hnm : 0 < nm) (hK : 0 < K) (hp : 0 < p) :
+    langmuir_transform p (simple_lang p nm K) = (1 / nm) * p + 1 / (nm * K) := by
+  unfold langmuir_transform simple_lang
+  have h1 : 1 + K * p ≠ 0 := by positivity
+  have h2 : nm ≠ 0 := hnm.ne'
+  have h3 : K ≠ 0 := hK.ne'
+  have h4 : p ≠ 0 := hp.ne'
+  field_simp
+  ring
+
+/-- **B8b.** The Langmuir parameter formulas invert slope and intercept. -/
+theorem langmuir_parameters_recover (nm K cs : ℝ) (hnm : 0 < nm) (hK : 0 < K) :
+    lang_n_monolayer (1 / nm) = nm ∧
+    lang_const (1 / (nm * K)) nm = K ∧
+    lang_area cs nm = nm * cs * (10 : ℝ) ^ (-18 : ℤ) * 602214076000000000000000 ∧
+    lang_area cs nm = nm * cs * 602214.076 := by
+  have h2 : nm ≠ 0 := hnm.ne'
+  have h3 : K ≠ 0 := hK.ne'
+  refine ⟨?_, ?_, rfl, ?_⟩
+  · unfold lang_n_monolayer; field_simp
+  · unfold lang_const; field_simp
+  · unfold lang_area; rw [mul_assoc, avogadro_scaled]
+
+/-- **B8c.** Langmuir end to end over any strictly increasing list of at least two positive pressures. -/
+theorem langmuir_recovers (nm K : ℝ) (ps : List ℝ) (hnm : 0 < nm) (hK : 0 < K)
+    (hs : ps.Pairwise (· < ·)) (hl : 2 ≤ ps.length) (hp : ∀ p ∈ ps, 0 < p) :
+    let r := ols ps (ps.map fun p => langmuir_transform p (simple_lang p nm K))
+    r = (1 / nm, 1 / (nm * K)) ∧
+    lang_n_monolayer r.1 = nm ∧ lang_const r.2 (lang_n_monolayer r.1) = K := by
+  intro r
+  have hr : r = (1 / nm, 1 / (nm * K)) := by
+    apply ols_exact_of_sorted _ _ _ _ _ hs hl
+    apply List.map_congr_left
+    intro p hpm
+    exact langmuir_transform_linear nm K p hnm hK (hp p hpm)
+  obtain ⟨h1, h2, -⟩ := langmuir_parameters_recover nm K 0 hnm hK
+  refine ⟨hr, ?_, ?_⟩
+  · rw [hr]; exact h1
+  · rw [hr]; simp only; rw [h1]; exact h2
+
+/-! ### t-plot -/
+
+/-- **B9.** t-plot: a loading that is exactly `s·t + i` over a strictly increasing thickness list (at least 2 points) is
+fitted with slope `s`, intercept `i`, and the reported area / adsorbed volume are `s M/ρ`, `i M/ρ/1000`.
+(generated argument order `molar_mass liquid_density slope|intercept`). -/
+theorem tplot_recovers (s i M ρ : ℝ) (ts : List ℝ) (hs : ts.Pairwise (· < ·)) (hl : 2 ≤ ts.length) :
+    let r := ols ts (ts.map fun t => s * t + i)
+    r = (s, i) ∧ tplot_area M ρ r.1 = s * M / ρ ∧ tplot_adsorbed_volume M ρ r.2 = i * M / ρ / 1000 := by
+  intro r
+  have hr : r = (s, i) := ols_exact_of_sorted s i ts _ rfl hs hl
+  refine ⟨hr, ?_, ?_⟩ <;> rw [hr] <;> rfl
+
+/-! ### alpha-s -/
+
+/-- the alpha-s curve of a strictly increasing reference loading is strictly increasing (`0 < α_s` point loading) -/
+lemma alphas_curve_sorted (apt : ℝ) (ref : List ℝ) (hapt : 0 < apt) (hs : ref.Pairwise (· < ·)) :
+    (ref.map fun x => alphas_curve x apt).Pairwise (· < ·) := by
+  apply pairwise_lt_map_of_mem hs
+  intro a _ b _ hab
+  unfold alphas_curve
+  exact div_lt_div_of_pos_right hab hapt
+
+/-- **B10.** alpha-s: loading exactly `s·α + i` over the alpha-s curve of a strictly increasing reference loading
+(at least 2 points, normalising loading `0 < apt`) is fitted with `(s, i)` and the area is `A_ref/apt · s`.
+(generated argument order `alphas_area alpha_s_point reference_area slope`). -/
+theorem alphas_recovers (s i apt Aref : ℝ) (ref : List ℝ) (hapt : 0 < apt)
+    (hs : ref.Pairwise (· < ·)) (hl : 2 ≤ ref.length) :
+    let curve := ref.map fun x => alphas_curve x apt
+    let r := ols curve (curve.map fun a => s * a + i)
+    r = (s, i) ∧ alphas_area apt Aref r.1 = Aref / apt * s := by
+  intro curve r
+  have hr : r = (s, i) :=
+    ols_exact_of_sorted s i curve _ rfl (alphas_curve_sorted apt ref hapt hs) (by simpa [curve] using hl)
+  refine ⟨hr, ?_⟩
+  rw [hr]; rfl
+
+/-- **B11.** alpha-s of an isotherm against itself: slope `apt`, intercept `0`, and the reference area is returned. -/
+theorem alphas_self_returns_reference_area (apt Aref : ℝ) (ref : List ℝ) (hapt : 0 < apt)
+    (hs : ref.Pairwise (· < ·)) (hl : 2 ≤ ref.length) :
+    let curve := ref.map fun x => alphas_curve x apt
+    let r := ols curve ref
+    r = (apt, 0) ∧ alphas_area apt Aref r.1 = Aref := by
+  intro curve r
+  have hr : r = (apt, 0) := by
+    apply ols_exact_of_sorted apt 0 curve ref _ (alphas_curve_sorted apt ref hapt hs) (by simpa [curve] using hl)
+    simp only [curve, List.map_map]
+    conv_lhs => rw [← List.map_id ref]
+    apply List.map_congr_left
+    intro x _
+    simp only [id, Function.comp, alphas_curve]
+    field_simp
+    ring
+  refine ⟨hr, ?_⟩
+  rw [hr]; unfold alphas_area
+  field_simp
+
+/-! ### Dubinin–Astakhov / Dubinin–Radushkevich -/
+
+/-- the gas constant literal of the generated code (`scipy.constants.gas_constant`, 8.31446261815324) -/
+noncomputable def Rgas : ℝ := 207861565453831 / 25000000000000
+
+/-- the Dubinin–Astakhov governing equation (generator; loading in mmol/g from the micropore volume `V0` cm³/g) -/
+noncomputable def nDA (V0 ρ M T E k p : ℝ) : ℝ :=
+  V0 * ρ / M * Real.exp (-((Rgas * T * (-(Real.log p)) / (1000 * E)) ^ k))
+
+lemma Rgas_pos : 0 < Rgas := by unfold Rgas; norm_num
+
+/-- **B12.** DA linearisation: `log (n M/ρ)` is linear in `(-log p)^k` with slope `-(RT/(1000E))^k` and intercept `log V0`.
+Guards: `0 < p < 1` (so `-log p > 0`; the real power of a negative base is not the code's value), positive constants. -/
+theorem da_transform_linear (V0 ρ M T E k p : ℝ) (hp0 : 0 < p) (hp1 : p < 1) (hV : 0 < V0) (hρ : 0 < ρ)
+    (hM : 0 < M) (hT : 0 < T) (hE : 0 < E) (_hk : 0 < k) :
+    log_v_adj (nDA V0 ρ M T E k p) M ρ
+      = Real.log V0 + (-((Rgas * T / (1000 * E)) ^ k)) * log_p_exp p k := by
+  have hL : 0 ≤ -(Real.log p) := (neg_pos.2 (Real.log_neg hp0 hp1)).le
+  have hA : 0 ≤ Rgas * T / (1000 * E) := by have := Rgas_pos; positivity
+  unfold log_v_adj nDA log_p_exp
+  simp only [Real.rpow_eq_pow]
+  have e1 : V0 * ρ / M * Real.exp (-((Rgas * T * (-(Real.log p)) / (1000 * E)) ^ k)) * M / ρ
+      = V0 * Real.exp (-((Rgas * T * (-(Real.log p)) / (1000 * E)) ^ k)) := by
+    field_simp
+  have e2 : Rgas * T * (-(Real.log p)) / (1000 * E) = (Rgas * T / (1000 * E)) * (-(Real.log p)) := by ring
+  rw [e1, Real.log_mul hV.ne' (Real.exp_pos _).ne', Real.log_exp, e2, Real.mul_rpow hA hL]
+  ring
+
+/-- **B13.** The DA parameter formulas invert slope and intercept.
+(generated argument order `da_potential iso_temp exp slope`). -/
+theorem da_parameters_recover (V0 T E k : ℝ) (hV : 0 < V0) (hT : 0 < T) (hE : 0 < E) (hk : 0 < k) :
+    da_microp_volume (Real.log V0) = V0 ∧
+    da_potential T k (-((Rgas * T / (1000 * E)) ^ k)) = E := by
+  have hR := Rgas_pos
+  have hA : 0 ≤ Rgas * T / (1000 * E) := by positivity
+  constructor
+  · unfold da_microp_volume; exact Real.exp_log hV
+  · unfold da_potential
+    simp only [Real.rpow_eq_pow, neg_neg]
+    rw [← Real.rpow_mul hA, mul_one_div_cancel hk.ne', Real.rpow_one]
+    change Rgas * T / (Rgas * T / (1000 * E)) / 1000 = E
+    field_simp
+
+/-- `(-log p)^k` is strictly decreasing in `p` on `(0,1)` for `k > 0`. -/
+theorem log_p_exp_strictAntiOn (k : ℝ) (hk : 0 < k) :
+    StrictAntiOn (fun p => log_p_exp p k) (Set.Ioo 0 1) := by
+  intro a ha b hb hab
+  unfold log_p_exp
+  simp only [Real.rpow_eq_pow]
+  have h1 : Real.log a < Real.log b := Real.log_lt_log ha.1 hab
+  have h2 : 0 ≤ -(Real.log b) := (neg_pos.2 (Real.log_neg hb.1 hb.2)).le
+  exact Real.rpow_lt_rpow h2 (neg_lt_neg h1) hk
+
+/-- DA regression over any list of pressures in `(0,1)` containing two distinct pressures. -/
+theorem da_ols_eq (V0 ρ M T E k : ℝ) (ps : List ℝ) (hV : 0 < V0) (hρ : 0 < ρ)
+    (hM : 0 < M) (hT : 0 < T) (hE : 0 < E) (hk : 0 < k) (hp : ∀ p ∈ ps, 0 < p ∧ p < 1)
+    {u v : ℝ} (hu : u ∈ ps) (hv : v ∈ ps) (huv : u ≠ v) :
+    ols (ps.map fun p => log_p_exp p k) (ps.map fun p => log_v_adj (nDA V0 ρ M T E k p) M ρ)
+      = (-((Rgas * T / (1000 * E)) ^ k), Real.log V0) := by
+  have hanti := log_p_exp_strictAntiOn k hk
+  have hne : log_p_exp u k ≠ log_p_exp v k := by
+    rcases lt_or_gt_of_ne huv with h | h
+    · exact (hanti ⟨(hp u hu).1, (hp u hu).2⟩ ⟨(hp v hv).1, (hp v hv).2⟩ h).ne'
+    · exact (hanti ⟨(hp v hv).1, (hp v hv).2⟩ ⟨(hp u hu).1, (hp u hu).2⟩ h).ne
+  apply ols_exact_of_two_distinct _ _ _ _ _ (List.mem_map_of_mem hu) (List.mem_map_of_mem hv) hne
+  rw [List.map_map]
+  apply List.map_congr_left
+  intro p hpm
+  simp only [Function.comp]
+  rw [da_transform_linear V0 ρ M T E k p (hp p hpm).1 (hp p hpm).2 hV hρ hM hT hE hk]
+  ring
+
+/-- **B14.** DA end to end over a strictly increasing list of at least two relative pressures in `(0,1)`
+(the abscissae `(-log p)^k` are then strictly decreasing): the fit returns `V0` and `E`. -/
+theorem da_recovers (V0 ρ M T E k : ℝ) (ps : List ℝ) (hV : 0 < V0) (hρ : 0 < ρ)
+    (hM : 0 < M) (hT : 0 < T) (hE : 0 < E) (hk : 0 < k)
+    (hs : ps.Pairwise (· < ·)) (hl : 2 ≤ ps.length) (hp : ∀ p ∈ ps, 0 < p ∧ p < 1) :
+    let r := ols (ps.map fun p => log_p_exp p k) (ps.map fun p => log_v_adj (nDA V0 ρ M T E k p) M ρ)
+    r = (-((Rgas * T / (1000 * E)) ^ k), Real.log V0) ∧
+    da_microp_volume r.2 = V0 ∧ da_potential T k r.1 = E := by
+  intro r
+  obtain ⟨u, hu, v, hv, huv⟩ := exists_two_of_pairwise (fun a b h => ne_of_lt h) ps hs hl
+  have hr : r = (-((Rgas * T / (1000 * E)) ^ k), Real.log V0) :=
+    da_ols_eq V0 ρ M T E k ps hV hρ hM hT hE hk hp hu hv huv
+  obtain ⟨h1, h2⟩ := da_parameters_recover V0 T E k hV hT hE hk
+  exact ⟨hr, by rw [hr]; exact h1, by rw [hr]; exact h2⟩
+
+/-- B14 for a strictly decreasing pressure list (desorption order). -/
+theorem da_recovers_desc (V0 ρ M T E k : ℝ) (ps : List ℝ) (hV : 0 < V0) (hρ : 0 < ρ)
+    (hM : 0 < M) (hT : 0 < T) (hE : 0 < E) (hk : 0 < k)
+    (hs : ps.Pairwise (· > ·)) (hl : 2 ≤ ps.length) (hp : ∀ p ∈ ps, 0 < p ∧ p < 1) :
+    let r := ols (ps.map fun p => log_p_exp p k) (ps.map fun p => log_v_adj (nDA V0 ρ M T E k p) M ρ)
+    r = (-((Rgas * T / (1000 * E)) ^ k), Real.log V0) ∧
+    da_microp_volume r.2 = V0 ∧ da_potential T k r.1 = E := by
+  intro r
+  obtain ⟨u, hu, v, hv, huv⟩ := exists_two_of_pairwise (fun a b h => ne_of_gt h) ps hs hl
+  have hr : r = (-((Rgas * T / (1000 * E)) ^ k), Real.log V0) :=
+    da_ols_eq V0 ρ M T E k ps hV hρ hM hT hE hk hp hu hv huv
+  obtain ⟨h1, h2⟩ := da_parameters_recover V0 T E k hV hT hE hk
+  exact ⟨hr, by rw [hr]; exact h1, by rw [hr]; exact h2⟩
+
+/-- the abscissae of the DA plot of a strictly increasing pressure list in `(0,1)` are strictly decreasing -/
+theorem da_abscissae_desc (k : ℝ) (hk : 0 < k) (ps : List ℝ) (hs : ps.Pairwise (· < ·))
+    (hp : ∀ p ∈ ps, 0 < p ∧ p < 1) : (ps.map fun p => log_p_exp p k).Pairwise (· > ·) := by
+  apply pairwise_gt_map_of_mem hs
+  intro a ha b hb hab
+  exact log_p_exp_strictAntiOn k hk ⟨(hp a ha).1, (hp a ha).2⟩ ⟨(hp b hb).1, (hp b hb).2⟩ hab
+
+/-- **B15.** At the generating exponent every regression residual is zero (so the standard error that the exponent
+search minimises attains its global minimum 0 there). -/
+theorem da_true_exponent_has_zero_residual (V0 ρ M T E k : ℝ) (ps : List ℝ) (hV : 0 < V0) (hρ : 0 < ρ)
+    (hM : 0 < M) (hT : 0 < T) (hE : 0 < E) (hk : 0 < k)
+    (hs : ps.Pairwise (· < ·)) (hl : 2 ≤ ps.length) (hp : ∀ p ∈ ps, 0 < p ∧ p < 1) :
+    let r := ols (ps.map fun p => log_p_exp p k) (ps.map fun p => log_v_adj (nDA V0 ρ M T E k p) M ρ)
+    ∀ p ∈ ps, r.2 + r.1 * log_p_exp p k = log_v_adj (nDA V0 ρ M T E k p) M ρ := by
+  intro r p hpm
+  have hr := (da_recovers V0 ρ M T E k ps hV hρ hM hT hE hk hs hl hp).1
+  change r = _ at hr
+  rw [hr, da_transform_linear V0 ρ M T E k p (hp p hpm).1 (hp p hpm).2 hV hρ hM hT hE hk]
+
+end Recovery
 
 end PgVerif.Props.C14
